@@ -13,6 +13,7 @@ import (
 	"os"
 	"sort"
 	"strconv"
+	"strings"
 
 	"github.com/ipfs/boxo/ipld/merkledag"
 	bhamt "github.com/ipfs/boxo/ipld/unixfs/hamt"
@@ -756,6 +757,21 @@ func runDirCase(dc *DirCase, tr *Tr) error {
 				"loads": classes(dw, loads), "failed": classes(dw, failed)})
 		case "iter":
 			how := op[1].(string)
+			// stepping styles (fault-free runs only): "-nodone" calls Next exactly Length() times without asking Done
+			// in between and then expects Done; "-dd" asks Done before the loop and twice before every Next
+			style := ""
+			if i := strings.Index(how, "-"); i >= 0 {
+				how, style = how[:i], how[i+1:]
+				if len(st.missing) > 0 || st.failLoadAt > 0 {
+					style = ""
+				}
+			}
+			var want int64 = -1
+			if style == "nodone" {
+				if pm := guard(func() { want = node.Length() }); pm != nil {
+					want = -1
+				}
+			}
 			pairs := [][]int{}
 			errs, steps := 0, 0
 			over := "none"
@@ -771,7 +787,13 @@ func runDirCase(dc *DirCase, tr *Tr) error {
 					// the yielded nodes are kept and read only after the iteration has ended: a pair handed out
 					// by Next stays what it was (nodes are immutable values) however far the iterator has moved on
 					var kn, vn []ipld.Node
-					for !it.Done() {
+					if style == "dd" {
+						it.Done()
+					}
+					for (style == "nodone" && int64(steps) < want) || (style != "nodone" && !it.Done()) {
+						if style == "dd" {
+							it.Done()
+						}
 						steps++
 						if steps > budget {
 							res = "budget"
@@ -783,6 +805,9 @@ func runDirCase(dc *DirCase, tr *Tr) error {
 							continue
 						}
 						kn, vn = append(kn, k), append(vn, v)
+					}
+					if style == "nodone" && !it.Done() {
+						errs++ // Length() steps were taken and the iterator is not done
 					}
 					for i := range kn {
 						ks, _ := kn[i].AsString()
@@ -809,7 +834,13 @@ func runDirCase(dc *DirCase, tr *Tr) error {
 						res = "noiter"
 						return
 					}
-					for !it.Done() {
+					if style == "dd" {
+						it.Done()
+					}
+					for (style == "nodone" && int64(steps) < want) || (style != "nodone" && !it.Done()) {
+						if style == "dd" {
+							it.Done()
+						}
 						steps++
 						if steps > budget {
 							res = "budget"
@@ -827,13 +858,16 @@ func runDirCase(dc *DirCase, tr *Tr) error {
 						}
 						pairs = append(pairs, []int{kid, dw.classOf(v.Link().(cidlink.Link).Cid)})
 					}
+					if style == "nodone" && !it.Done() {
+						errs++
+					}
 				}
 			})
 			if pm != nil {
 				res = "panic"
 			}
 			loads, failed := st.TakeLoads()
-			tr.Emit(M{"ev": "iter", "how": how, "pairs": pairs, "errs": errs, "res": res, "e": res, "over": over, "steps": steps,
+			tr.Emit(M{"ev": "iter", "how": how, "style": style, "pairs": pairs, "errs": errs, "res": res, "e": res, "over": over, "steps": steps,
 				"loads": classes(dw, loads), "failed": classes(dw, failed)})
 		case "length":
 			var n int64
